@@ -26,6 +26,11 @@ IsNumNode(t) == \/ t.k \in {"Bin", "Count", "Sum", "Min", "Max", "Aggregate", "M
                 \/ (t.k = "Meth" /\ t.a \in NumMethodNames)
 IsAggNode(t) == t.k \in {"Count", "Sum", "Min", "Max"}
 ArithOps == {"+", "-", "*", "/", "%", "**"}
+\* a non-number next to a DOUBLE operand (a literal, a method value), on either side: the widest-type
+\* selection must look at every operand, whatever comes first
+ArithOpsD == {"+", "*", "**"}
+CD == T("Const", "double", 3, <<>>)
+StrA == T("Str", "a", 0, <<>>)
 
 \* <<how, replacement>> for the sub-term t
 Wrappers(t) ==
@@ -40,6 +45,8 @@ Wrappers(t) ==
   \cup (IF IsAggNode(t)
         THEN {<<"seq_arith_" \o op, T("Bin", op, 0, <<t.ch[1], CI(2)>>)>> : op \in ArithOps}
              \cup {<<"arith_seq_" \o op, T("Bin", op, 0, <<CI(2), t.ch[1]>>)>> : op \in ArithOps}
+             \cup {<<"seq_arith_d_" \o op, T("Bin", op, 0, <<t.ch[1], CD>>)>> : op \in ArithOpsD}
+             \cup {<<"arith_d_seq_" \o op, T("Bin", op, 0, <<CD, t.ch[1]>>)>> : op \in ArithOpsD}
              \cup {<<"seq_arith", T("Bin", "+", 0, <<t.ch[1], CI(1)>>)>>,
               <<"agg_only", T("AggOnly", "", 0, <<t.ch[1]>>)>>,
               <<"agg_func", T("AggFunc", "", 0, <<t.ch[1]>>)>>,
@@ -48,6 +55,12 @@ Wrappers(t) ==
   \cup (IF t.k = "Meth" /\ t.a \in NumMethodNames
         THEN {<<"raw_object", t.ch[1]>>, <<"getattribute@atlas", T("GetAttr", t.a, 0, <<t.ch[1]>>)>>}
              \cup {<<"obj_arith_" \o op, T("Bin", op, 0, <<t.ch[1], CI(2)>>)>> : op \in ArithOps}
+             \cup {<<"arith_obj_" \o op, T("Bin", op, 0, <<CI(2), t.ch[1]>>)>> : op \in ArithOps}
+             \cup {<<"obj_arith_d_" \o op, T("Bin", op, 0, <<t.ch[1], CD>>)>> : op \in ArithOpsD}
+             \cup {<<"arith_d_obj_" \o op, T("Bin", op, 0, <<CD, t.ch[1]>>)>> : op \in ArithOpsD}
+             \cup {<<"meth_arith_obj_" \o op, T("Bin", op, 0, <<t, t.ch[1]>>)>> : op \in ArithOpsD}
+             \cup {<<"str_arith_" \o op, T("Bin", op, 0, <<t, StrA>>)>> : op \in {"+", "*"}}
+             \cup {<<"arith_str_" \o op, T("Bin", op, 0, <<StrA, t>>)>> : op \in {"+", "*"}}
         ELSE {})
   \cup (IF t.k = "First" THEN {<<"first_predicate", T("FirstPred", "", 0, <<t.ch[1]>>)>>} ELSE {})
   \cup (IF t.k = "Idx" THEN {<<"slice", T("Slice", "", 0, <<t.ch[1]>>)>>} ELSE {})
